@@ -1,6 +1,8 @@
+import Lean.Data.Json
 import Emboss.Model.Fmt
 import Emboss.Spec.Fmt
 import Emboss.Spec.FmtEquivC
+import Emboss.Spec.FmtRetok
 import Driver.Util
 open Emboss.Fmt Driver
 
@@ -21,6 +23,16 @@ open Emboss.Fmt Driver
   `countdiffers`.
 * `GLUE` / `GLUECHECK` — the terminal pairs some handler prints with nothing in between
   (`gluedPairs`), and whether all of them are in the audited list (`gluedOK`).
+* `RETOK <indent_width> <tree>` — `retokTree` (Spec/FmtRetok.lean): the hypotheses of
+  `C11_retokenize_partial` evaluated row by row with the tokenizer model, and the token
+  sequence they imply.  Answer: `ok <leaves>` (`,`-separated `<hex symbol>:<hex text>`, `-` for
+  none) or `hyp-fails`.
+* `HRUN <production index> <indent_width> <hex JSON array of values>` — run the *handler* the
+  registry resolves that production to on the given argument values (round 3: per-handler
+  probes).  Values: `{"s": str}`, `{"l": [str…]}`, `{"n": 0}` (Python `[]`), `{"r": [row…]}`,
+  `{"b": [block…]}`, `{"S": [[row…]…]}`, `{"i": [[row…], [block…]]}`; row =
+  `[name, [columns…], indent]`, block = `[[row…], row, [row…]]`.  Answer: `ok <hex JSON value>`,
+  `none` (the model says the Python raises), `bad-op`.
 -/
 
 def hexVal (c : Char) : Option Nat :=
@@ -114,6 +126,121 @@ def tableReport : String :=
       " ignored-non-layout=[" ++ "; ".intercalate (undropped.map showEntry) ++ "]" ++
       " layout-lhs=[" ++ "; ".intercalate (layoutLhs.map showEntry) ++ "]"
 
+/-! ### Values as JSON (op `HRUN`) -/
+
+open Lean in
+def rowToJson (r : Row) : Json :=
+  Json.arr #[Json.str r.name.str, Json.arr (r.columns.map (fun c => Json.str (String.ofList c))).toArray,
+    Json.num (JsonNumber.fromNat r.indent)]
+
+open Lean in
+def rowsToJson (l : List Row) : Json := Json.arr (l.map rowToJson).toArray
+
+open Lean in
+def blockToJson (b : Block) : Json :=
+  Json.arr #[rowsToJson b.pre, rowToJson b.header, rowsToJson b.body]
+
+open Lean in
+def nilJson : Json := Json.mkObj [("n", Json.num 0)]
+
+open Lean in
+/-- Python cannot tell an empty list of rows from an empty list of blocks: every empty list
+is `{"n": 0}`. -/
+def fmtToJson : Fmt → Json
+  | .str s => Json.mkObj [("s", Json.str (String.ofList s))]
+  | .strs [] => nilJson
+  | .strs l => Json.mkObj [("l", Json.arr (l.map (fun c => Json.str (String.ofList c))).toArray)]
+  | .nil => nilJson
+  | .rows [] => nilJson
+  | .rows l => Json.mkObj [("r", rowsToJson l)]
+  | .blocks [] => nilJson
+  | .blocks l => Json.mkObj [("b", Json.arr (l.map blockToJson).toArray)]
+  | .sections [] => nilJson
+  | .sections l => Json.mkObj [("S", Json.arr (l.map rowsToJson).toArray)]
+  | .inlineBody h f => Json.mkObj [("i", Json.arr #[rowsToJson h, Json.arr (f.map blockToJson).toArray])]
+
+def rowNames : List RowName :=
+  [.comment, .doc, .import_, .attribute, .typeHeader, .field, .virtualField, .if_, .enumValue,
+   .sectionBreak, .topTypeSeparator, .fieldSeparator, .valueSeparator, .dedentSpace]
+
+def rowNameOfStr (s : String) : Option RowName := rowNames.find? (fun n => n.str == s)
+
+open Lean in
+def jsonToRow (j : Json) : Option Row :=
+  match j with
+  | Json.arr #[Json.str n, Json.arr cols, ind] => do
+    let name ← rowNameOfStr n
+    let cols ← cols.toList.mapM (fun c => match c with | Json.str x => some x.toList | _ => none)
+    let ind ← (ind.getNat?).toOption
+    pure { name := name, columns := cols, indent := ind }
+  | _ => none
+
+open Lean in
+def jsonToRows (j : Json) : Option (List Row) :=
+  match j with
+  | Json.arr a => a.toList.mapM jsonToRow
+  | _ => none
+
+open Lean in
+def jsonToBlock (j : Json) : Option Block :=
+  match j with
+  | Json.arr #[p, h, b] => do
+    let p ← jsonToRows p
+    let h ← jsonToRow h
+    let b ← jsonToRows b
+    pure { pre := p, header := h, body := b }
+  | _ => none
+
+open Lean in
+def jsonToBlocks (j : Json) : Option (List Block) :=
+  match j with
+  | Json.arr a => a.toList.mapM jsonToBlock
+  | _ => none
+
+open Lean in
+def jsonToFmt (j : Json) : Option Fmt :=
+  match j.getObjVal? "s" with
+  | .ok (Json.str s) => some (.str s.toList)
+  | _ =>
+  match j.getObjVal? "n" with
+  | .ok _ => some .nil
+  | _ =>
+  match j.getObjVal? "l" with
+  | .ok (Json.arr a) => (a.toList.mapM (fun c => match c with | Json.str x => some x.toList | _ => none)).map .strs
+  | _ =>
+  match j.getObjVal? "r" with
+  | .ok r => (jsonToRows r).map .rows
+  | _ =>
+  match j.getObjVal? "b" with
+  | .ok b => (jsonToBlocks b).map .blocks
+  | _ =>
+  match j.getObjVal? "S" with
+  | .ok (Json.arr a) => (a.toList.mapM jsonToRows).map .sections
+  | _ =>
+  match j.getObjVal? "i" with
+  | .ok (Json.arr #[h, f]) => do
+    let h ← jsonToRows h
+    let f ← jsonToBlocks f
+    pure (.inlineBody h f)
+  | _ => none
+
+open Lean in
+def parseArgs (hex : String) : Option (List Fmt) :=
+  match unhex hex with
+  | none => none
+  | some txt =>
+    match Json.parse txt with
+    | .ok (Json.arr a) => a.toList.mapM jsonToFmt
+    | _ => none
+
+def handlerRun (p iw : Nat) (args : List Fmt) : Option Fmt :=
+  match Emboss.Generated.FmtTable.formatters[p]? with
+  | none => none
+  | some e =>
+    match resolve e with
+    | none => none
+    | some h => h.run iw args
+
 def handle (line : String) : String :=
   match line.splitOn " " with
   | ["TABLE"] => tableReport
@@ -133,6 +260,22 @@ def handle (line : String) : String :=
       | some _ => "not-text"
       | none => "none"
     | _, _ => "bad-op"
+  | "RETOK" :: iw :: items =>
+    match iw.toNat?, parseItems items [] none with
+    | some iw, some t =>
+      match Emboss.FmtTok.retokTree iw t with
+      | some E =>
+        if E.isEmpty then "ok -"
+        else "ok " ++ ",".intercalate (E.map (fun l => tohex l.1 ++ ":" ++ tohex (String.ofList l.2)))
+      | none => "hyp-fails"
+    | _, _ => "bad-op"
+  | ["HRUN", p, iw, hex] =>
+    match p.toNat?, iw.toNat?, parseArgs hex with
+    | some p, some iw, some args =>
+      match handlerRun p iw args with
+      | some v => "ok " ++ tohex (fmtToJson v).compress
+      | none => "none"
+    | _, _, _ => "bad-op"
   | ["SANITY", f, o] =>
     match parseToks f, parseToks o with
     | some f, some o =>
